@@ -9,10 +9,13 @@
   `C04_carried` (for every input): the ftyp payload in the returned metadata is the input's, byte for byte, and the
   moov payload in it is the input's last moov payload with every byte outside the tables the independent walker finds
   in the INPUT unchanged (the frame over the five nesting levels: Lemmas/Splice.lean, Fusion.lean, KeepRel.lean).
-  `Spec_C04` (the walker run on the OUTPUT, byte comparison outside its tables) is evaluated per generated case.
+  `C04_spec_holds` (for every input): the executable specification `Spec_C04` itself (the walker run on input and
+  output: ftyp payload identical, moov payload of the same length and identical outside the tables) has no complaint
+  about any result the model returns (Lemmas/WalkFrame.lean, SpecHolds.lean).
 -/
 import MediaSan.Lemmas.Mp4Displace
 import MediaSan.Lemmas.RelocateFinal
+import MediaSan.Lemmas.SpecHolds
 namespace MediaSan.Props.C04
 open MediaSan MediaSan.Mp4
 
@@ -85,6 +88,15 @@ theorem C04_carried (s : Stream) (kind : SkipKind) (cfg : Config) (r : Sanitized
   refine ⟨bs', f, m, T.map (·.1), fo, mo, hw, ?_, hlm, hmt, hfl, hfe, hlen, p1⟩
   rw [cc_ftyp]; exact hf
 
+
+/-- C04 as the executable specification states it, for EVERY input, configuration and cursor kind: `Spec_C04` - the
+    independent walker locates ftyp and the last moov in the input and in the returned metadata; the ftyp payloads are
+    identical, the moov payloads have the same length and are identical at every byte outside the chunk-offset tables
+    - has no complaint about any result the model returns with metadata. -/
+theorem C04_spec_holds (s : Stream) (kind : SkipKind) (cfg : Config) (r : Sanitized) (md : Bytes)
+    (h : Mp4.sanitize s kind cfg = .ok r) (hmd : r.metadata = some md) :
+    Spec_C04 s ⟨cfg.maxMetadataSize, cfg.cumulativeMdatBoxSize⟩ (.rewritten (Stream.ofBytes md) r.data.offset r.data.len) = none :=
+  C01R.spec_C04_holds s kind cfg r md h hmd
 
 end Carried
 
